@@ -47,12 +47,13 @@ def divNorm (a b : Term) : Term :=
     | _, _ => mkDivNorm a b
   else mkDivNorm a b
 
-/-- what the manager's constructor makes of a node of the standard reading whose arguments are already normal -/
+/-- what the manager's constructor makes of a node of the standard reading whose arguments are already normal
+(`/` on Reals; the integer division `div` has no pySMT spelling and is left alone) -/
 def rootNorm (op : Op) (args : List Term) (p : Payload) : Term :=
   match op, args, p with
   | .not, [a], .none => notNorm a
   | .toReal, [a], .none => toRealNorm a
-  | .div, [a, b], .none => divNorm a b
+  | .div, [a, b], .none => if a.typeOf == some .real then divNorm a b else .node .div [a, b] .none
   | _, _, _ => .node op args p
 
 /-- the manager's normal form of a term, bottom-up -/
